@@ -215,6 +215,15 @@ func (d *directory) fill(rng *rand.Rand, rids func(h int) []uint32, builtin func
 		names = append(names, planStep{kind: "domain", name: dns}, planStep{kind: "domain", name: strings.ToLower(dns)}, planStep{kind: "domain", name: strings.ToUpper(dns)},
 			planStep{kind: "domain", name: h.dc}, planStep{kind: "domain", name: strings.ToUpper(h.dc)})
 	}
+	for hi, h := range d.heads {
+		// other spellings of names that are there
+		dns := refDomainOfDN(h.dn)
+		for vi, v := range []string{dns + ".", "." + dns, dns + "..", dns + " ", " " + dns, h.dc + ".", strings.ToLower(dns) + "."} {
+			if (hi+vi)%2 == 0 || len(d.heads) <= 2 {
+				names = append(names, planStep{kind: "domain", name: v})
+			}
+		}
+	}
 	names = append(names, planStep{kind: "domain", name: "absent." + refDomainOfDN(d.heads[0].dn)}, planStep{kind: "domain", name: "NOSUCHDOMAIN"},
 		planStep{kind: "domain", name: refDomainOfDN(d.heads[0].dn) + ".x"})
 	if rng != nil {
@@ -579,6 +588,20 @@ func (sr *sessionRun) getDomain(name string) {
 		if strings.Contains(name, ".") && strings.EqualFold(refDomainOfDN(string(dnB)), name) || !strings.Contains(name, ".") && strings.EqualFold(string(dcB), name) {
 			want = &q.sent[i]
 			break
+		}
+	}
+	if want == nil && got != nil {
+		// another spelling of a name that is there (root dot, blanks): whether a library understands it
+		// is its choice; if it does, the Domain it returns is still the one of that head
+		core := strings.Trim(name, ". ")
+		for i, e := range q.sent {
+			dnB, _ := e.attr("distinguishedName")
+			dcB, _ := e.attr("dc")
+			if core != name && string(dnB) == got.DistinguishedName && (strings.EqualFold(refDomainOfDN(string(dnB)), core) || strings.EqualFold(string(dcB), core)) {
+				r.Count("session_getdomain_other_spelling_understood", 1)
+				sr.compareDomain("ldap.Session.GetDomain", name, got, q.sent[i], q.sent)
+				return
+			}
 		}
 	}
 	switch {
